@@ -548,8 +548,12 @@ package rockredis
 //@   trusted reads the stored raw value through the engine and asks the expiry policy whether it is expired at ts
 //@   ensures result4 == nil ==> (result3 <==> ghost(kvexpired, db) == 1) && (result2 == nil || fresh(result2))
 //@ func (db *RockDB) decodeDBRawValueToRealValue(value []byte) ([]byte, *headerMetaValue, error)
-//@   trusted strips the modify time and decodes the value header (header codec: C10); stored values obey MaxValueSize
+//@   opt only=ASSERT
+//@   requires db != nil && db.expiration != nil
+//@   callassert decodeRawValue (len(value) >= 8 ==> len(arg2) == len(value) - 8 && arg2.arr == value.arr && arg2.off == value.off) && (len(value) < 8 ==> sameSlice(arg2, value))
 //@   ensures result2 == nil ==> result1 != nil && fresh(result1) && sameSlice(result0, result1.UserData) && (result0 == nil || fresh(result0)) && len(result0) == ghost(kvlen, db) && len(result0) <= MaxValueSize
+// (decodeDBRawValueToRealValue: partial contract - what is verified is that exactly the 8-byte modify time is cut off
+// before the header is decoded, for every stored length; the link to ghost(kvlen) and MaxValueSize stays assumed)
 // write preparation of a string key: on an expired value (or a full reset) the header is renewed - no expiry, new
 // version - so the rewritten value does not inherit the dead one's ttl
 //@ func (db *RockDB) prepareKVValueForWrite(ts int64, rawKey []byte, reset bool) (verKeyInfo, []byte, error)
@@ -1376,7 +1380,7 @@ package rockredis
 //@   requires c != nil
 //@ func (db *RockDB) PFAdd(ts int64, rawKey []byte, elems ...[]byte) (int64, error)
 //@   requires dbReady(db) && db.hllCache != nil
-//@   modifies *
+//@   modifies alloftype(hllCacheItem), ghost(misses, db), ghost(hits, db), ghost(readerrs, db)
 
 //@ property C19
 //@ func (r *RockDB) RestoreFromRemoteBackup(term uint64, index uint64) error
@@ -1384,3 +1388,24 @@ package rockredis
 //@   ensures result == nil ==> ghost(restores, r) == old(ghost(restores, r)) + 1 && ghost(restorefails, r) == old(ghost(restorefails, r))
 //@   ensures result != nil ==> ghost(restorefails, r) == old(ghost(restorefails, r)) + 1 && ghost(restores, r) == old(ghost(restores, r))
 //@   modifies ghost(restores, r), ghost(restorefails, r)
+
+
+// ---- string reads (C08, C10): GET hands out the user data of the stored value, nothing for an expired one ----
+//@ property C08 C10
+//@ func (db *RockDB) getDBKVRealValueAndHeader(ts int64, rawKey []byte, useLock bool) (verKeyInfo, []byte, error)
+//@   requires db != nil && db.expiration != nil
+//@   ensures result2 == nil ==> (result0.Expired <==> ghost(kvexpired, db) == 1)
+//@   ensures result2 == nil && result1 != nil ==> len(result1) == ghost(kvlen, db)
+//@   ensures result2 != nil ==> result1 == nil
+//@   modifies alloftype(headerMetaValue)
+//@ func (db *RockDB) KVGet(key []byte) ([]byte, error)
+//@   requires db != nil && db.expiration != nil
+//@   ensures result1 == nil && ghost(kvexpired, db) == 1 ==> result0 == nil
+//@   ensures result1 == nil && result0 != nil ==> len(result0) == ghost(kvlen, db)
+//@   ensures result1 != nil ==> result0 == nil
+//@   modifies alloftype(headerMetaValue)
+//@ func (db *RockDB) KVGetExpired(key []byte) ([]byte, error)
+//@   requires db != nil && db.expiration != nil
+//@   ensures result1 == nil && result0 != nil ==> len(result0) == ghost(kvlen, db)
+//@   ensures result1 != nil ==> result0 == nil
+//@   modifies alloftype(headerMetaValue)
